@@ -77,7 +77,7 @@ def judge_all(ctx, recs, chunk=1500):
 def mc_cli(ctx):
     """the abstract machine: frame facts + scenario export"""
     r = vlib.tlc(ctx, "SpokCLI", "SPECIFICATION CSpec\nCONSTANTS MaxFlags = %d\nINVARIANTS EmitScen\nPROPERTIES FmtOnlyWhenValid CacheOnlyByRuns ReadOnlyActions "
-                 "InitNeverOverwrites\nCHECK_DEADLOCK FALSE\n" % (2 if ctx.tier == "quick" else 3), workers=4, timeout=900, dump_trace=False)
+                 "InitNeverOverwrites\nCHECK_DEADLOCK FALSE\n" % (2 if ctx.tier == "quick" else 4), workers=4, timeout=900, dump_trace=False)
     if r.error or r.violated:
         raise Machinery("SpokCLI model check failed: %s %s" % (r.violated, (r.error or "")[:1500]))
     scen = set()
@@ -163,7 +163,7 @@ def c09_scenarios(tier, seed):
               "diamond": {"ta": [], "tb": ["ta"], "tc": ["ta"], "td": ["tb", "tc"]}}
     flags = [[], ["--quiet"], ["--json"], ["--force"]]
     scen, meta = [], []
-    n = 440 if tier == "quick" else 8000
+    n = 440 if tier == "quick" else 16000
     boundary = [1, 2, 3, 64, 100, 125, 126, 127, 128, 129, 130, 137, 143, 200, 254, 255]
     singles = [(st, fl) for st in (boundary if tier == "quick" else list(range(1, 256))) for fl in range(4)]
     for it in range(n + len(singles)):
@@ -322,7 +322,7 @@ def c13_scenarios(tier, seed):
     combos = list(itertools.permutations(NAMESV, 2)) + list(itertools.permutations(NAMESV, 3))
     rnd.shuffle(combos)
     for names in combos[: (40 if tier == "quick" else len(combos))]:
-        for _ in range(2 if tier == "quick" else 12):
+        for _ in range(2 if tier == "quick" else 40):
             vs = []
             for n in names:
                 k = rnd.choice(["str", "str", "join", "exec"])
@@ -369,7 +369,7 @@ def c12_scenarios(tier, seed):
             ".hidden/z.o", "decoy/out.txt", "build.log", "out.txt.bak", "dist/pkg.sha", ".x_cache/f.bin", "my_cache/f.bin", "my_cache/sub/g.bin", "cache.db", "zcache"]
     kinds = ["litfile", "litdir", "named_rel", "named_join", "glob", "glob_none", "missing", "litdir_build", "litfile_buildlog", "glob_top", "litfile_bak", "litfile_sha",
              "named_empty", "named_dot", "lit_parent", "named_abs_outside"]
-    n = 400 if tier == "quick" else 6000
+    n = 400 if tier == "quick" else 20000
     for it in range(n):
         present = [p for p in tree if rnd.random() < 0.75]
         nout = rnd.randint(0, 5)
@@ -472,7 +472,7 @@ def run_c12(ctx):
 def c20_scenarios(tier, seed):
     rnd = random.Random(seed)
     scen, meta = [], []
-    n = 250 if tier == "quick" else 4000
+    n = 250 if tier == "quick" else 12000
     pool = ["alpha", "beta", "gamma", "delta", "default", "zeta"]
     for it in range(n):
         k = rnd.randint(1, 5)
